@@ -30,6 +30,7 @@ func basicType() parsec.Parser {
 		parsec.Atom("str", ""),
 		parsec.Atom("obj", ""),
 		parsec.Atom("any", ""),
+		parsec.Atom("nothing", ""),
 		parsec.Atom("unknown", ""))
 }
 
@@ -669,6 +670,8 @@ func nodifyBasicType(nodes []signature.Node) signature.Node {
 		return signature.NewValueType()
 	case "obj":
 		return signature.NewObjectType()
+	case "nothing":
+		return signature.NewVoidType()
 	case "unknown":
 		return signature.NewUnknownType()
 	default:
